@@ -160,7 +160,7 @@ CHECKS = {
         "legs": [
             model("Wiring_MC.cfg", spec="Wiring.tla", min_states=1000),
             model("Wiring_DevPos.cfg", spec="Wiring.tla", expect_violation="C05_OneToOne"),
-            dict(WT, kind="trace", name="wiring", workload="wiring", n=(300, 5000), opts={}, require={r'"ev":"h_use"': 600, r'"kind":"(bin|io|lr)_': 150, r'"hops":3': 50},
+            dict(WT, kind="trace", name="wiring", workload="wiring", n=(300, 5000), opts={}, require={r'"ev":"h_use"': 600, r'"kind":"(bin|io|lr)_': 150, r'"hops":3': 50, r'"kind":"nest_tx"': 40},
                  nontrivial=[r'"ev":"w_recv","id":\d+\}|"cids":\[\d+,\d+', r'"ev":"h_use"']),
             dict(WT, kind="trace", name="wiring_hops3", workload="wiring", n=(150, 2000), opts={"hops": 3}, require={r'"ev":"h_use"': 300}, nontrivial=[r'"ev":"h_use"']),
             dict(WT, kind="trace", name="wiring_ports5", workload="wiring", n=(200, 3000), opts={"max_ports": 5}, require={r'ports exhausted': 50, r'"got":-1': 100},
@@ -346,9 +346,9 @@ CHECKS = {
             model("RobsMirror_MC.cfg", spec="RobsMirror.tla", min_states=80),
             model("RobsMirror_DevNoMarker.cfg", spec="RobsMirror.tla", expect_violation="C14_NoGap"),
             dict(ET, kind="trace", name="robs_err", workload="robs_err", n=(400, 6000), opts={},
-                 require={r'"kind":"Lagged"': 60, r'"kind":"Closed"': 60, r'"kind":"MaxSizeExceeded"': 40, r'"kind":"Remote': 40, r'"ev":"e_ev_end"': 60},
+                 require={r'"kind":"Lagged"': 60, r'"kind":"Closed"': 60, r'"kind":"MaxSizeExceeded"': 40, r'"kind":"Remote': 40, r'"ev":"e_ev_end"': 60, r'"kind":"InvalidIndex"': 40},
                  nontrivial=[r'"complete":true', r'"ev":"e_detach"']),
-            dict(ET, kind="trace", name="robs_list", workload="robs_list", n=(100, 1500), opts={}, require={r'"ev":"l_recv"': 2000, r'"how":"Closed"': 20, r'"how":"none"': 60},
+            dict(ET, kind="trace", name="robs_list", workload="robs_list", n=(100, 1500), opts={}, require={r'"ev":"l_recv"': 2000, r'"how":"Closed"': 20, r'"how":"none"': 60, r'"distributor_alive":true': 8},
                  nontrivial=[r'"ev":"l_sub"']),
         ],
     },
